@@ -61,6 +61,9 @@ def run(rep, tier, seed, replay):
                 "with the parser model; non-trivial = has at least one reported span and a multi-byte character or a branch")
     exprs = lib.inputs(rep, "C17", tier, seed, 3000, 40000, replay, malformed_share=0.45)
     if replay is None:
+        import gen as _gin
+        exprs += [e for e in _gin.inherited_neighbour_family() if e not in set(exprs)]
+    if replay is None:
         # expressions with outer whitespace (ordinary literal text in a glob): spans index the string the caller passed,
         # whichever route builds it
         import random as _r
